@@ -16,7 +16,7 @@ from . import proto as P
 from .common import HarnessError
 from .world import World
 
-OPEN, CONNECT, SUB, PUB, READY, SETNAME, DISCONNECT, CLOSE, STEP, FAULT, BURST, HFRAME, HCTRL, HGARBAGE, HCLOSE, HMASS, PROBE = range(17)
+OPEN, CONNECT, SUB, PUB, READY, SETNAME, DISCONNECT, CLOSE, STEP, FAULT, BURST, HFRAME, HCTRL, HGARBAGE, HCLOSE, HMASS, PROBE, SLOW = range(18)
 
 TYPES_U = [1234, 5000, 33, 8, 0, 2, 100, 9999, 10000, 65536, -1, 2 ** 31 - 2, -(2 ** 31), 42, 80]
 SIZES = [0, 8, 1, 7, 64, 4096, 65535]
@@ -236,6 +236,15 @@ def resolve(w: World, raw, pf: Profile) -> Optional[dict]:
         if part:
             op["partial"] = part
         return op
+    if code == SLOW:
+        # a live, connected client reads slowly: its window takes `after` more bytes, then it pauses (see FakeSocket.slow_after)
+        vict = [m for m in _usable(w) if m.connected and m.idx not in pf.protected]
+        if not vict:
+            return None
+        m = vict[a % len(vict)]
+        hs = w.sim.hsize
+        pool = [0, 1, hs - 1, hs, hs + 1, hs + 7, hs + 8, hs + 63, 2 * hs + 8, 3 * hs + 70, 4 + (c % 300)]
+        return {"op": "slow", "c": m.idx, "after": pool[b % len(pool)]}
     if code == FAULT:
         # a write to a live, connected client fails after `after` more bytes.  Only clients whose next
         # incoming frame the model can predict: no acknowledgement pending, no manager-originated
